@@ -26,7 +26,7 @@ CLAIMS = {
          'append, filter-before-output, truncation marking agreement over sinks, back-end re-framing guards, roll-over/disable ordering, no re-logging from sinks, record completeness (every formatter prints every field; thread id and time obtained in the call itself), level clamped into the level tables (interval abstract interpretation)', '§4 C09',
          'lockset + who-may-call + CFG path rules over clang AST/CFG'),
  'C10': ('A1 pairwise common-lock race freedom with producer/backend/owner roles and thread phases, whole-append critical section incl. every external '
-         'appendLockless caller, one critical section for a whole datum, FIFO hand-over and reset-after-callback, back-pressure guards, cleanup/quit-path flush order, acyclic lock order and no wait-for cycle (no role blocks on a mutex another role holds while waiting for it), chunk-copy arithmetic of the pipe buffer by linear forms per reaching definition (inside block and datum, min(request, free), size_ advanced by what was copied)', '§4 C10, §10.7',
+         'appendLockless caller, one critical section for a whole datum, FIFO hand-over and reset-after-callback, back-pressure guards, cleanup/quit-path flush order, acyclic lock order and no wait-for cycle (no role blocks on a mutex another role holds while waiting for it), chunk-copy arithmetic of the pipe buffer by linear forms per reaching definition (inside block and datum, min(request, free), size_ advanced by what was copied), stop flag tested under the lock before every backend wait, relative counters of initialize() reset by cleanup()', '§4 C10, §10.7',
          'lockset + lock-order + CFG path rules over clang AST/CFG'),
  'C11': ('hook-balance on every path of initialize/start (own hook matched by state advance or rollback, children rolled back in reverse), gated single '
          'stop/cleanup hooks, pre-order/reverse-order iteration (reverse iterators or down-counting index), required-only abort read off branch edges, every child swept unconditionally by stop/cleanup, Main()/Start()/Stop() sequencing', '§4 C11',
@@ -41,16 +41,16 @@ CLAIMS.update({
          'completion only when drained, receive-side commit/spill shape, destruction only through deferred tasks at the in-callback sites; plus the util::Buffer window arithmetic (C07 rules run as C06.B1-B4, the send/receive queues are Buffers)', '§4 C06, §10.6',
          'typestate-style site rules + ownership (deferred delete) rules over clang AST/CFG'),
  'C12': ('A8 no exception escapes the receive path (call-graph scan with try map, presence proofs by reaching definitions), fail verdicts only on a complete '
-         'line and cursor-update shapes, no dispatch after a close-marked request, single commit per request by construction, in-order flush shape, boundary agreement of every comparison with close_index, no read-side shutdown while responses are owed (teardown chain re-derived each run), no unbounded stack allocation on the receive path', '§4 C12',
+         'line and cursor-update shapes, no dispatch after a close-marked request, single commit per request by construction, in-order flush shape, boundary agreement of every comparison with close_index, no read-side shutdown while responses are owed (teardown chain re-derived each run), no unbounded stack allocation on the receive path, per-request parser state re-initialised at each request, any transport shutdown only in the send-complete callback', '§4 C12',
          'exception-escape analysis + reaching definitions + CFG path rules over clang AST/CFG'),
  'C13': ('A8 no exception escapes the input path (telnet, raw TCP, terminal), no access to an empty history, deferred tasks capture tokens not pooled pointers, '
-         'cursor-update guards, prompt/history-cap shape, telnet framing length tests, bounded history recursion, no unbounded stack allocation (VLA/alloca) on the input path; range/presence proofs require the container to be unchanged between proof and use; key decoding transition table read off the scanner vs the xterm/VT220 reference encodings, key-result to handler dispatch table', '§4 C13, §10.7',
+         'cursor-update guards, prompt/history-cap shape, telnet framing length tests, bounded history recursion, no unbounded stack allocation (VLA/alloca) on the input path; range/presence proofs require the container to be unchanged between proof and use; key decoding transition table read off the scanner vs the xterm/VT220 reference encodings, key-result to handler dispatch table, no implicit narrowing of strtol-family results (A9g)', '§4 C13, §10.7',
          'exception-escape analysis + ownership/deferred-capture + CFG path rules over clang AST/CFG'),
  'C14': ('A8 framing/dispatch never throw (parse only inside CatchThrow, typed json access under type tests), no narrow length sum, fetchNoCopy result proven '
          'non-null or tested, resumable-framing return discipline, complete-then-erase with sibling agreement, no container handle live across the user callback, '
-         'bounded recursion, FindEndPos scan guards, TimeoutMonitor count/timer protocol (count changes only with the ring, timer disabled only on a fresh zero test, nothing decided from a pre-callback value), no unbounded stack allocation', '§4 C14', 'exception-escape + input-hardening + re-entrancy rules over clang AST/CFG'),
+         'bounded recursion, FindEndPos scan guards, TimeoutMonitor count/timer protocol (count changes only with the ring, timer disabled only on a fresh zero test, nothing decided from a pre-callback value), no unbounded stack allocation, no narrow integer get<T>() without a range test (A9g for JSON), owner re-installs the monitor callback on re-initialisation, framing state reset on consuming/failing exits', '§4 C14', 'exception-escape + input-hardening + re-entrancy rules over clang AST/CFG'),
  'C15': ('every datagram-filled local initialised or status-checked, reported values control dependent on successful reads, bounded compression recursion, '
-         'deserializer bounds-check/width/advance agreement over all readers, complete-then-erase of lookups, no exception on the datagram path, TimeoutMonitor count/timer protocol, no unbounded stack allocation', '§4 C15',
+         'deserializer bounds-check/width/advance agreement over all readers, complete-then-erase of lookups, no exception on the datagram path, TimeoutMonitor count/timer protocol (both sides), no unbounded stack allocation, receive length bounded by the receive buffer, reported Result fresh per datagram', '§4 C15',
          'input-hardening (def/use + guard) rules + sibling agreement over clang AST/CFG'),
  'C16': ('re-entrancy counter bracket around every user function (abstract counter dataflow), state writes only behind the re-entrancy test, transition step '
          'order, delegation/handler/route precedence with first-match scan shape, enter/exit and sub-machine start/stop pairing, definition calls rejected while running', '§4 C16',
